@@ -28,7 +28,17 @@ def ahas {β} (l : List (Path × β)) (k : Path) : Bool := l.any (fun p => p.1 =
 structure Version where
   text : String
   parsed : Option FileRec
+  /-- for a cached text that does not parse: what the last version of the file that did parse
+      contributes (the AST that stays in `ast_cache`); only its imports are read -/
+  carried : Option FileRec := none
   deriving Repr, Inhabited
+
+/-- the record a file's IMPORTS are read from: the text's own when it parses, else the one carried
+    over from the last version that did -/
+def Version.effRec (v : Version) : Option FileRec :=
+  match v.parsed with
+  | some fr => some fr
+  | none => v.carried
 
 structure Cycle where
   path : List String
@@ -165,13 +175,23 @@ def preState (cl : Bool) (st : Index) (f : Path) (v : Version) (fr : FileRec) : 
   -- `invalidate_cycle_cache()` once per successful analysis (repaired E3), then once per definition
   { st2 with modNames := ainsert st2.modNames f fr.modNames, epoch := st2.epoch + 1, version := st2.version + 1 }
 
+/-- an unparsable text enters the cache together with the record of the last version of the file
+    that parsed: the one its previous cache entry stood for (the AST still in `ast_cache`), else
+    the file as it is on disk -/
+def carry (st : Index) (f : Path) (v : Version) : Version :=
+  let fromCache := (alookup st.cache f).bind Version.effRec
+  let fromDisk := (alookup st.disk f).bind (fun d => d.parsed)
+  { v with carried := match fromCache with
+                      | some fr => some fr
+                      | none => fromDisk }
+
 /-- `analyze_file_internal(path, text, cleanup_previous)`; the Boolean result is "panicked". -/
 def analyze (pfx : Path) (cleanup : Bool) (st : Index) (f : Path) (v : Version) : Index × Bool :=
   match v.parsed with
   | none =>
     -- the text does not parse: the recorded data stays, but what other files get THROUGH this one
     -- is read from its current text, so the version-keyed memos are invalidated all the same
-    ({ st with cache := ainsert st.cache f v, epoch := st.epoch + 1, version := st.version + 1 }, false)
+    ({ st with cache := ainsert st.cache f (carry st f v), epoch := st.epoch + 1, version := st.version + 1 }, false)
   | some fr =>
     (fr.events.foldl (applyEvent pfx f) (preState cleanup st f v fr),
      fr.events.any (fun e => match e with | .panic => true | _ => false))
@@ -250,7 +270,7 @@ def imported : Nat → Index → Path → List Path → List String × List Path
 where
   compute (top : Bool) (fuel : Nat) (st : Index) (f : Path) (vis : List Path) (v : Version) :
       List String × List Path × Index :=
-    match v.parsed with
+    match v.effRec with
     | none =>
       ([], vis, if top then { st with impCache := ainsert st.impCache f (v.text, st.version, []) } else st)
     | some fr =>
